@@ -23,6 +23,11 @@ func cmdName(top, module, verb string, args *mgmt.ControlArgs) enc.Name {
 	return n
 }
 
+// cmdNameSpec: the same, with the ControlParameters encoded by the independent encoder (protocol TLV numbers)
+func cmdNameSpec(top, module, verb string, args *mgmt.ControlArgs) enc.Name {
+	return enc.Name{gen(top), gen("nfd"), gen(module), gen(verb), enc.NewBytesComponent(enc.TypeGenericNameComponent, specEncodeParams(args))}
+}
+
 func TestCorpusGen(t *testing.T) {
 	dir := os.Getenv("VERIF_CORPUS_OUT")
 	if dir == "" {
@@ -80,6 +85,23 @@ func TestCorpusGen(t *testing.T) {
 			mk("strategy-choice/unset", 3, cmdName("localhost", "strategy-choice", "unset", &mgmt.ControlArgs{Name: ab})),
 			list("rib", "list"), list("fib", "list"), list("strategy-choice", "list"), list("cs", "info"), list("faces", "list"), list("status", "general")}},
 	}
+	cases["11-face-update-mtu-huge"] = &caseSpec{faces: facePool[0], cmds: []opCmd{
+		mk("faces/update,mtu=2^63", 3, cmdName("localhost", "faces", "update", &mgmt.ControlArgs{FaceId: u(2), Mtu: u(1 << 63)})),
+		list("faces", "list"),
+		mk("faces/update,mtu=2^64-1", 3, cmdNameSpec("localhost", "faces", "update", &mgmt.ControlArgs{FaceId: u(2), Mtu: u(1<<64 - 1)})),
+		mk("faces/update,mtu=8801", 3, cmdName("localhost", "faces", "update", &mgmt.ControlArgs{Mtu: u(8801)})),
+		list("faces", "list")}}
+	cases["12-protocol-encoded-commands"] = &caseSpec{faces: facePool[0], cmds: []opCmd{
+		mk("cs/config,spec-encoded", 3, cmdNameSpec("localhost", "cs", "config", &mgmt.ControlArgs{Capacity: u(5000)})),
+		list("cs", "info"),
+		mk("cs/config,spec-encoded,count-only", 3, cmdNameSpec("localhost", "cs", "config", &mgmt.ControlArgs{Count: u(7)})),
+		list("cs", "info"),
+		mk("rib/register,spec-encoded", 3, cmdNameSpec("localhost", "rib", "register", &mgmt.ControlArgs{Name: ab, FaceId: u(2), Origin: u(128), Cost: u(7), Flags: u(2), ExpirationPeriod: u(1000)})),
+		mk("fib/add-nexthop,spec-encoded", 3, cmdNameSpec("localhost", "fib", "add-nexthop", &mgmt.ControlArgs{Name: ab, Cost: u(3)})),
+		mk("strategy-choice/set,spec-encoded", 3, cmdNameSpec("localhost", "strategy-choice", "set", &mgmt.ControlArgs{Name: ab, Strategy: &mgmt.Strategy{Name: strategyName(sp + "/multicast")}})),
+		mk("faces/update,spec-encoded", 3, cmdNameSpec("localhost", "faces", "update", &mgmt.ControlArgs{FaceId: u(2), FacePersistency: u(2), Mtu: u(1400), Flags: u(1), Mask: u(1),
+			BaseCongestionMarkInterval: u(5), DefaultCongestionThreshold: u(9)})),
+		list("rib", "list"), list("fib", "list"), list("strategy-choice", "list"), list("faces", "list")}}
 	// more routes than one 8000-byte segment holds: rib/list and fib/list go unanswered (known finding), nothing crashes
 	big := &caseSpec{faces: facePool[0]}
 	for i := 0; i < 200; i++ {
